@@ -33,7 +33,9 @@
 //	      Companions next to a type reference ({type: "@t"} rule or `@t` example):
 //	      optional, nullable.
 //	[C6]  `or` / {type: "@t"} / type: "any" on containers: only an EMPTY object/array may
-//	      carry `or` or type "any"; no container may carry {type: "@t"}. A `@t`
+//	      carry `or` or type "any" (the `or` then without a user type member "@t" / {type: "@t"};
+//	      a reference member with a companion, {type: "@t", nullable: true}, is an anonymous
+//	      type and passes); no container may carry {type: "@t"}. A `@t`
 //	      example node may carry neither `or`, `enum`, nor a `type` rule.
 //	[C7]  The example must be admitted by an `or` set: some member has exactly the
 //	      example's JSON kind (integer is not admitted by a "float" member) and the
@@ -93,6 +95,7 @@ import (
 	"time"
 
 	jlib "github.com/jsightapi/jsight-schema-go-library"
+	jsonfmt "github.com/jsightapi/jsight-schema-go-library/formats/json"
 	js "github.com/jsightapi/jsight-schema-go-library/notations/jschema"
 
 	"verifharness/vh"
@@ -176,47 +179,238 @@ type oalt struct {
 	// an enum rule-set member {enum: [...]}: it has no JSON kind of its own
 	enum     bool
 	items    []string
-	nullable bool // the member also says nullable: true
-	min    int64 // scaled by 100
+	nullable bool  // the member also says nullable: true
+	min      int64 // scaled by 100
+	// a GENERATED rule-set member (see genOr): its consistency is judged by memberOK; for the
+	// admission of the example it is never needed, because a generated `or` always holds an
+	// anchor member of exactly the example's kind without further rules.
+	opaque     bool
+	companions bool // a generated member with more rules than its type rule
+}
+
+// member is one member of a generated `or` value: a bare type name or a rule-set.
+type member struct {
+	bare  string // "integer" … ("" = a rule-set)
+	rules []rl
 }
 
 type param struct {
 	text  string
 	qtext string // the same value with the rule names inside rule-sets quoted ("" = same as text)
-	num   int64 // min/max scaled by 100; lengths, counts, precision as is
+	num   int64  // min/max scaled by 100; lengths, counts, precision as is
 	b     bool
 	s     string
 	alts  []oalt
-	bad   bool // or: a member rule-set is inconsistent in itself (enum next to a foreign rule / a scalar type)
+	bad   bool // or: a member rule-set is inconsistent in itself (enum next to a foreign rule / a scalar type, or !memberOK)
 	items []string
+	mem   []member // or: generated members (the text is rendered from them, each inner rule with its own spelling)
 }
+
+// Spellings of a rule name that ARE the rule (the unchanged tree trims blanks around the
+// name, then unquotes it as a JSON string — calibration decision [C23]).
+const (
+	spBare    = 0 // min
+	spQuoted  = 1 // "min"
+	spEscOne  = 2 // "m\u0069n": one character written as a JSON \u escape inside the quotes
+	spEscAll  = 3 // every character escaped
+	nSpelling = 4
+)
+
+// Near-miss names: spellings that are NOT the rule (an unknown rule, 601 or a parse error) —
+// rl.miss != 0. They are visible to the specification: the rule set then holds an unknown rule.
+var missNames = []string{"", "lead_blank_in_quotes", "trail_blank_in_quotes", "both_blanks_in_quotes", "capitalised", "upper_case",
+	"lower_case", "trailing_junk", "leading_junk", "empty_name", "escaped_blank_in_quotes", "escape_in_bare_name",
+	"truncated", "inner_blank_in_quotes", "tab_in_quotes", "doubled_last_letter", "escaped_tab_in_quotes", "quoted_twice"}
 
 type rl struct {
-	name   string
-	p      param
-	quoted bool // the rule name is spelled "name" (with quotes) — a spelling, not part of the rule set
+	name string
+	p    param
+	sp   int // spelling of the name (spBare …) — a spelling, not part of the rule set
+	miss int // near-miss variant of the name (index of missNames, 0 = the real name)
 }
 
-// String prints the rule; a quoted rule also quotes the names inside its rule-sets.
-func (r rl) String() string {
-	if r.quoted {
-		t := r.p.text
-		if r.p.qtext != "" {
-			t = r.p.qtext
+const bs = string(rune(92)) // one backslash
+
+func uEsc(c byte) string { return bs + fmt.Sprintf("u%04x", c) }
+
+// missName builds the near-miss variant v of the rule name n; "" if the variant does not
+// exist for n (it would be n itself or another rule name).
+func missName(n string, v int, quoted bool) string {
+	q := func(s string) string { return `"` + s + `"` }
+	opt := func(s string) string { // a variant that exists bare and quoted
+		if quoted {
+			return q(s)
 		}
-		return `"` + r.name + `": ` + t
+		return s
 	}
-	return r.name + ": " + r.p.text
+	var core, out string
+	switch missNames[v] {
+	case "lead_blank_in_quotes":
+		core, out = " "+n, q(" "+n)
+	case "trail_blank_in_quotes":
+		core, out = n+" ", q(n+" ")
+	case "both_blanks_in_quotes":
+		core, out = " "+n+" ", q(" "+n+" ")
+	case "capitalised":
+		core = strings.ToUpper(n[:1]) + n[1:]
+		out = opt(core)
+	case "upper_case":
+		core = strings.ToUpper(n)
+		out = opt(core)
+	case "lower_case":
+		core = strings.ToLower(n)
+		out = opt(core)
+	case "trailing_junk":
+		core = n + "_"
+		out = opt(core)
+	case "leading_junk":
+		core = "x" + n
+		out = opt(core)
+	case "empty_name":
+		core, out = "", q("")
+	case "escaped_blank_in_quotes":
+		core, out = n+" ", q(n+uEsc(' '))
+	case "escape_in_bare_name":
+		i := len(n) / 2
+		core = n[:i] + uEsc(n[i]) + n[i+1:]
+		out = core
+	case "truncated":
+		core = n[:len(n)-1]
+		out = opt(core)
+	case "inner_blank_in_quotes":
+		i := (len(n) + 1) / 2
+		core = n[:i] + " " + n[i:]
+		out = q(core)
+	case "tab_in_quotes":
+		core, out = n+"\t", q(n+"\t")
+	case "doubled_last_letter":
+		core = n + n[len(n)-1:]
+		out = opt(core)
+	case "escaped_tab_in_quotes":
+		core, out = "\t"+n, q(bs+"t"+n)
+	case "quoted_twice":
+		core, out = `"`+n+`"`, q(bs+`"`+n+bs+`"`)
+	default:
+		panic("missName")
+	}
+	if core == n {
+		return ""
+	}
+	for _, k := range ruleNames {
+		if k == core && k != "foo" {
+			return ""
+		}
+	}
+	return out
 }
 
-// spelled returns the rules with every name bare (q=false) or quoted (q=true).
+// nameText: the rule name as written.
+func (r rl) nameText() string {
+	if r.miss != 0 {
+		if t := missName(r.name, r.miss, r.sp != spBare); t != "" {
+			return t
+		}
+		return `" ` + r.name + `"`
+	}
+	switch r.sp {
+	case spQuoted:
+		return `"` + r.name + `"`
+	case spEscOne:
+		i := len(r.name) / 2
+		return `"` + r.name[:i] + uEsc(r.name[i]) + r.name[i+1:] + `"`
+	case spEscAll:
+		var sb strings.Builder
+		for i := 0; i < len(r.name); i++ {
+			sb.WriteString(uEsc(r.name[i]))
+		}
+		return `"` + sb.String() + `"`
+	}
+	return r.name
+}
+
+func (m member) String() string {
+	if m.bare != "" {
+		return `"` + m.bare + `"`
+	}
+	return "{" + annotation(m.rules) + "}"
+}
+
+// String prints the rule; a quoted rule also quotes the names inside the rule-sets of a fixed `or` value
+// (the rules of generated members carry their own spelling).
+func (r rl) String() string {
+	t := r.p.text
+	if r.p.mem != nil {
+		parts := make([]string, len(r.p.mem))
+		for i, m := range r.p.mem {
+			parts[i] = m.String()
+		}
+		t = "[" + strings.Join(parts, ", ") + "]"
+	} else if r.sp != spBare && r.p.qtext != "" {
+		t = r.p.qtext
+	}
+	return r.nameText() + ": " + t
+}
+
+// spelled returns the rules with every name bare (q=false) or quoted (q=true), also inside generated members;
+// near-miss names keep their spelling (it is what makes them a different name).
 func spelled(rs []rl, q bool) []rl {
 	out := make([]rl, len(rs))
 	for i, r := range rs {
 		out[i] = r
-		out[i].quoted = q
+		if r.miss == 0 {
+			out[i].sp = spBare
+			if q {
+				out[i].sp = spQuoted
+			}
+		}
+		if r.p.mem != nil {
+			ms := make([]member, len(r.p.mem))
+			for j, m := range r.p.mem {
+				ms[j] = member{bare: m.bare, rules: spelled(m.rules, q)}
+			}
+			out[i].p.mem = ms
+		}
 	}
 	return out
+}
+
+// innerReordered returns the rules with the rules inside every generated member rule-set permuted.
+func innerReordered(r *rand.Rand, rs []rl, reverse bool) []rl {
+	out := make([]rl, len(rs))
+	for i, x := range rs {
+		out[i] = x
+		if x.p.mem == nil {
+			continue
+		}
+		ms := make([]member, len(x.p.mem))
+		for j, m := range x.p.mem {
+			n := len(m.rules)
+			rr := make([]rl, n)
+			if reverse {
+				for k := range rr {
+					rr[k] = m.rules[n-1-k]
+				}
+			} else {
+				for k, pk := range r.Perm(n) {
+					rr[k] = m.rules[pk]
+				}
+			}
+			ms[j] = member{bare: m.bare, rules: rr}
+		}
+		out[i].p.mem = ms
+	}
+	return out
+}
+
+func hasGeneratedMembers(rs []rl) bool {
+	for _, x := range rs {
+		for _, m := range x.p.mem {
+			if len(m.rules) > 1 {
+				return true
+			}
+		}
+	}
+	return false
 }
 
 var ruleNames = []string{"minLength", "maxLength", "min", "max", "exclusiveMinimum", "exclusiveMaximum", "type", "precision",
@@ -351,7 +545,7 @@ func formatValid(f string) bool {
 func rulesOK(c ctx, rs []rl) bool {
 	// every rule is known …
 	for _, r := range rs {
-		if r.name == "foo" {
+		if r.name == "foo" || r.miss != 0 { // a near-miss spelling is another, unknown name
 			return false
 		}
 	}
@@ -422,7 +616,17 @@ func rulesOK(c ctx, rs []rl) bool {
 		if m["or"].bad { // enum inside a member rule-set is not combined with foreign rules either
 			return false
 		}
+		if empty { // [C6] no user type member ("@t" or {type: "@t"}) next to an empty container
+			for _, a := range m["or"].alts {
+				if strings.HasPrefix(a.typ, "@") && !a.companions {
+					return false
+				}
+			}
+		}
 		for _, a := range m["or"].alts { // [C7]
+			if a.opaque { // a generated member: the anchor member decides the admission
+				continue
+			}
 			if a.enum { // [C21]
 				switch {
 				case empty:
@@ -598,6 +802,399 @@ func rulesOK(c ctx, rs []rl) bool {
 	return true
 }
 
+// memberOK is the C08 statement for the rule-set of one `or` member: is the set consistent
+// in itself? The rule-set describes an alternative, not the annotated node, so nothing here
+// depends on the example: every rule is known and appears once, optional is out of place
+// (a member is not an object property) [C4], paired bounds are ordered, exclusive flags have
+// their bound [C10], precision only with decimal [C9], format types exclude length / regex,
+// enum / any / type references are not combined with foreign rules [C5], enum / mixed / decimal
+// types have their rule [C8].
+// [C22] Rule x kind applicability is NOT demanded inside a member: the statement speaks of "the kind
+// of node it annotates" and an or member has no node kind of its own (the reading the unchanged
+// tree satisfies: {type: "integer", minLength: 1} is a legal member). Such members are generated
+// (stat member_rule_foreign_to_declared_type); all companion conditions stay compared.
+func memberOK(rs []rl) bool {
+	for _, r := range rs {
+		if r.name == "foo" || r.miss != 0 {
+			return false
+		}
+		if r.name == "or" || r.name == "allOf" { // not generated inside members
+			return false
+		}
+	}
+	seen := map[string]bool{}
+	for _, r := range rs {
+		if seen[r.name] {
+			return false
+		}
+		seen[r.name] = true
+	}
+	if len(rs) == 0 {
+		return false
+	}
+	m := map[string]param{}
+	for _, r := range rs {
+		if (r.name == "nullable" || r.name == "const") && !r.p.b { // [C1]
+			continue
+		}
+		m[r.name] = r.p
+	}
+	has := func(n string) bool { _, ok := m[n]; return ok }
+	only := func(names ...string) bool {
+		for n := range m {
+			ok := false
+			for _, a := range names {
+				if n == a {
+					ok = true
+				}
+			}
+			if !ok {
+				return false
+			}
+		}
+		return true
+	}
+	typ := ""
+	if has("type") {
+		typ = m["type"].s
+	}
+	if has("optional") { // [C4]
+		return false
+	}
+	switch {
+	case has("enum"): // [C5][C21]
+		return only("enum", "nullable", "const", "type") && (typ == "" || typ == "enum")
+	case typ == "any":
+		return only("type", "nullable")
+	case strings.HasPrefix(typ, "@"):
+		return only("type", "nullable")
+	case typ == "enum" || typ == "mixed": // [C8]
+		return false
+	}
+	if typ == "decimal" && !has("precision") { // [C8]
+		return false
+	}
+	if has("precision") && ((typ != "" && typ != "decimal") || m["precision"].num == 0) { // [C9]
+		return false
+	}
+	if formatTypes[typ] && (has("minLength") || has("maxLength") || has("regex")) {
+		return false
+	}
+	if has("exclusiveMinimum") && !has("min") { // [C10]
+		return false
+	}
+	if has("exclusiveMaximum") && !has("max") {
+		return false
+	}
+	if has("min") && has("max") {
+		strict := (has("exclusiveMinimum") && m["exclusiveMinimum"].b) || (has("exclusiveMaximum") && m["exclusiveMaximum"].b)
+		if m["min"].num > m["max"].num || (strict && m["min"].num == m["max"].num) {
+			return false
+		}
+	}
+	if has("minLength") && has("maxLength") && m["minLength"].num > m["maxLength"].num {
+		return false
+	}
+	if has("minItems") && has("maxItems") && m["minItems"].num > m["maxItems"].num {
+		return false
+	}
+	return true
+}
+
+// ---------------------------------------------------------------------------
+// generated `or` values: an anchor member + rule-set members over the consistency matrix
+// ---------------------------------------------------------------------------
+
+func randomSpelling(r *rand.Rand) int {
+	switch x := r.Intn(10); {
+	case x < 4:
+		return spBare
+	case x < 8:
+		return spQuoted
+	case x < 9:
+		return spEscOne
+	}
+	return spEscAll
+}
+
+// memberParams: parameter choices of a rule inside a member rule-set (not related to the example):
+// ordered / equal / reversed pairs arise from the first / last choices.
+func memberParams(name string) []param {
+	switch name {
+	case "min":
+		return []param{numParam("1", 100), numParam("5", 500), numParam("2.5", 250), numParam("10", 1000)}
+	case "max":
+		return []param{numParam("10", 1000), numParam("5", 500), numParam("2.5", 250), numParam("1", 100)}
+	case "exclusiveMinimum", "exclusiveMaximum", "optional", "nullable", "const":
+		return boolParams()
+	case "minLength":
+		return []param{cntParam(0), cntParam(2), cntParam(4)}
+	case "maxLength":
+		return []param{cntParam(4), cntParam(2), cntParam(0)}
+	case "regex":
+		return []param{strParam("^a"), strParam(".*")}
+	case "precision":
+		return []param{cntParam(2), cntParam(1)}
+	case "minItems":
+		return []param{cntParam(0), cntParam(1), cntParam(3)}
+	case "maxItems":
+		return []param{cntParam(3), cntParam(1), cntParam(0)}
+	case "additionalProperties":
+		return []param{{text: "true", b: true, s: "true"}, {text: "false", s: "false"}, strParam("string"), strParam("@t")}
+	case "enum":
+		return []param{
+			{text: `[5, 2.25, "a@b.cc", true, null]`, items: []string{"5", "2.25", `"a@b.cc"`, "true", "null"}},
+			{text: `[6, "x", false]`, items: []string{"6", `"x"`, "false"}},
+		}
+	case "foo":
+		return []param{{text: "1"}, {text: "true"}}
+	}
+	panic(name)
+}
+
+var memberTypes = []string{"integer", "integer", "float", "float", "decimal", "string", "string", "email", "date", "boolean", "null",
+	"object", "array", "array", "any", "@t", "enum", "mixed", "", "", ""}
+
+// memberPool: the rules applicable to a member of declared type t [C22] (for a member without
+// a type rule: one family of rules), plus — marked by the caller as noise — rules that the
+// statement forbids next to t for a reason other than the node kind.
+func memberPool(r *rand.Rand, t string) []string {
+	switch t {
+	case "integer", "float":
+		return []string{"min", "max", "exclusiveMinimum", "exclusiveMaximum", "nullable", "const"}
+	case "decimal":
+		return []string{"min", "max", "exclusiveMinimum", "exclusiveMaximum", "precision", "precision", "nullable", "const"}
+	case "string":
+		return []string{"minLength", "maxLength", "regex", "nullable", "const"}
+	case "email", "date":
+		return []string{"nullable", "const"}
+	case "boolean", "null":
+		return []string{"nullable", "const"}
+	case "object":
+		return []string{"additionalProperties", "nullable"}
+	case "array":
+		return []string{"minItems", "maxItems", "nullable"}
+	case "any", "@t":
+		return []string{"nullable"}
+	case "enum":
+		return []string{"enum", "enum", "nullable", "const"}
+	case "mixed":
+		return []string{"nullable"}
+	}
+	switch r.Intn(5) { // no type rule
+	case 0:
+		return []string{"min", "max", "exclusiveMinimum", "exclusiveMaximum", "nullable"}
+	case 1:
+		return []string{"minLength", "maxLength", "regex", "nullable"}
+	case 2:
+		return []string{"minItems", "maxItems", "nullable"}
+	case 3:
+		return []string{"precision", "min", "max", "nullable"}
+	}
+	return []string{"enum", "nullable"}
+}
+
+// foreignFor: rules that the statement forbids next to the declared type t of a member whatever the kind
+// (companion conditions, not applicability).
+func foreignFor(t string) []string {
+	switch t {
+	case "integer", "float":
+		return []string{"precision"} // precision only with decimal
+	case "email", "date":
+		return []string{"minLength", "maxLength", "regex"} // format types exclude length / regex
+	case "any", "@t":
+		return []string{"min", "minLength", "const", "regex"} // not combined with foreign rules
+	case "enum":
+		return []string{"min", "regex"}
+	}
+	return nil
+}
+
+func genMember(r *rand.Rand) member {
+	t := memberTypes[r.Intn(len(memberTypes))]
+	pool := memberPool(r, t)
+	k := r.Intn(4)
+	if k > len(pool) {
+		k = len(pool)
+	}
+	if t == "" && k == 0 {
+		k = 1
+	}
+	var rs []rl
+	if t != "" {
+		rs = append(rs, rl{name: "type", p: strParam(t)})
+	}
+	used := map[string]bool{}
+	for _, i := range r.Perm(len(pool)) {
+		if len(used) == k {
+			break
+		}
+		n := pool[i]
+		if used[n] {
+			continue
+		}
+		used[n] = true
+		ps := memberParams(n)
+		rs = append(rs, rl{name: n, p: ps[r.Intn(len(ps))]})
+	}
+	// noise: a rule the statement forbids here
+	switch x := r.Intn(20); {
+	case x == 0:
+		ps := memberParams("foo")
+		rs = append(rs, rl{name: "foo", p: ps[r.Intn(len(ps))]})
+	case x == 1:
+		rs = append(rs, rl{name: "optional", p: boolParams()[r.Intn(2)]})
+	case x == 2: // a duplicated rule
+		d := rs[r.Intn(len(rs))]
+		if d.name != "type" && r.Intn(2) == 0 {
+			ps := memberParams(d.name)
+			d.p = ps[r.Intn(len(ps))]
+		}
+		rs = append(rs, d)
+	case x == 3: // a near-miss name
+		i := r.Intn(len(rs))
+		rs[i].miss = 1 + r.Intn(len(missNames)-1)
+	case x <= 5: // [C22] a rule of another kind's family: applicability is not demanded inside a member
+		all := []string{"min", "max", "exclusiveMinimum", "minLength", "maxLength", "regex", "minItems", "maxItems", "additionalProperties"}
+		nm := all[r.Intn(len(all))]
+		if !used[nm] && t != "any" && t != "@t" && t != "enum" && t != "mixed" {
+			ps := memberParams(nm)
+			rs = append(rs, rl{name: nm, p: ps[r.Intn(len(ps))]})
+		}
+	case x <= 8:
+		if f := foreignFor(t); f != nil {
+			n := f[r.Intn(len(f))]
+			if !used[n] {
+				ps := memberParams(n)
+				rs = append(rs, rl{name: n, p: ps[r.Intn(len(ps))]})
+			}
+		}
+	}
+	r.Shuffle(len(rs), func(i, j int) { rs[i], rs[j] = rs[j], rs[i] })
+	for i := range rs {
+		rs[i].sp = randomSpelling(r)
+	}
+	return member{rules: rs}
+}
+
+// genOr builds an `or` value for context c: one ANCHOR member of exactly the example's kind
+// without further rules (a bare type name or {type: kind}) — it admits the example — and one
+// or two generated rule-set members, which the example need not (and mostly does not) match.
+// The value is consistent iff every generated member is (memberOK).
+func genOr(r *rand.Rand, c ctx) param {
+	kind := kindName(c.val)
+	if c.val == "ref" {
+		kind = "integer"
+	}
+	anchor := member{bare: kind}
+	if r.Intn(2) == 0 {
+		anchor = member{rules: []rl{{name: "type", p: strParam(kind), sp: randomSpelling(r)}}}
+	}
+	n := 1
+	if r.Intn(4) == 0 {
+		n = 2
+	}
+	ms := make([]member, 0, n+1)
+	for i := 0; i < n; i++ {
+		ms = append(ms, genMember(r))
+	}
+	at := r.Intn(len(ms) + 1)
+	ms = append(ms[:at], append([]member{anchor}, ms[at:]...)...)
+	p := param{mem: ms}
+	for i, m := range ms {
+		if i == at {
+			p.alts = append(p.alts, oalt{typ: kind, ruleSet: m.bare == ""})
+			continue
+		}
+		t := ""
+		for _, x := range m.rules {
+			if x.name == "type" && x.miss == 0 {
+				t = x.p.s
+			}
+		}
+		p.alts = append(p.alts, oalt{typ: t, ruleSet: true, opaque: true, companions: len(m.rules) > 1})
+		if !memberOK(m.rules) {
+			p.bad = true
+		}
+	}
+	return p
+}
+
+// memberCase: a case of the generated-`or` stream: the `or` rule plus (sometimes) its companions.
+func memberCase(r *rand.Rand) rcase {
+	vals := []string{"int", "float", "str", "bool", "null", "obj0", "arr0"}
+	c := ctx{positions[r.Intn(3)], vals[r.Intn(len(vals))]}
+	if r.Intn(12) == 0 {
+		c.val = values[r.Intn(len(values))]
+	}
+	rs := []rl{{name: "or", p: genOr(r, c), sp: randomSpelling(r)}}
+	switch x := r.Intn(10); {
+	case x < 2:
+		rs = append(rs, rl{name: "nullable", p: boolParams()[r.Intn(2)], sp: randomSpelling(r)})
+	case x < 3:
+		rs = append(rs, rl{name: "type", p: strParam("mixed"), sp: randomSpelling(r)})
+	case x < 4:
+		rs = append(rs, rl{name: "optional", p: boolParams()[r.Intn(2)], sp: randomSpelling(r)})
+	}
+	r.Shuffle(len(rs), func(i, j int) { rs[i], rs[j] = rs[j], rs[i] })
+	return rcase{c, rs}
+}
+
+// nearMissStream: for every rule name a rule set that the statement accepts (the rule in a context
+// it applies to, with an in-range parameter and the companion it needs) — and the same set with the
+// name of that rule replaced by each of its near-miss spellings, bare and quoted where both exist.
+func nearMissStream() []rcase {
+	one := func(n string, c ctx, i int) rl { return rl{name: n, p: params(n, c)[i]} }
+	type base struct {
+		c  ctx
+		rs []rl
+	}
+	var bases []base
+	for _, pos := range positions {
+		ci, cf, cs := ctx{pos, "int"}, ctx{pos, "float"}, ctx{pos, "str"}
+		co, ca := ctx{pos, "obj"}, ctx{pos, "arr"}
+		bases = append(bases,
+			base{cs, []rl{one("minLength", cs, 0)}}, base{cs, []rl{one("maxLength", cs, 0)}}, base{cs, []rl{one("regex", cs, 0)}},
+			base{ci, []rl{one("min", ci, 0)}}, base{ci, []rl{one("max", ci, 0)}},
+			base{ci, []rl{one("exclusiveMinimum", ci, 0), one("min", ci, 0)}}, base{ci, []rl{one("exclusiveMaximum", ci, 1), one("max", ci, 0)}},
+			base{ci, []rl{one("type", ci, 0)}}, base{cf, []rl{one("precision", cf, 0)}},
+			base{ca, []rl{one("minItems", ca, 0)}}, base{ca, []rl{one("maxItems", ca, 0), one("minItems", ca, 1)}},
+			base{co, []rl{one("additionalProperties", co, 0)}}, base{co, []rl{one("allOf", co, 0)}},
+			base{ci, []rl{one("nullable", ci, 0)}}, base{ci, []rl{one("const", ci, 0), one("min", ci, 1)}},
+			base{ci, []rl{one("or", ci, 0)}}, base{ci, []rl{one("enum", ci, 0), one("nullable", ci, 0)}},
+			base{cs, []rl{one("minLength", cs, 1), one("maxLength", cs, 1)}},
+		)
+		if pos == "prop" {
+			bases = append(bases, base{ci, []rl{one("optional", ci, 0)}}, base{cs, []rl{one("optional", cs, 1), one("regex", cs, 0)}})
+		}
+	}
+	var out []rcase
+	for _, b := range bases {
+		if !rulesOK(b.c, b.rs) {
+			panic("nearMissStream: base set not accepted by the specification: " + annotation(b.rs))
+		}
+		out = append(out, rcase{b.c, b.rs})
+		for v := 1; v < len(missNames); v++ {
+			for sp := 0; sp < 2; sp++ {
+				t := missName(b.rs[0].name, v, sp == 1)
+				if t == "" || (sp == 1 && t == missName(b.rs[0].name, v, false)) {
+					continue
+				}
+				rs := append([]rl{}, b.rs...)
+				rs[0].miss, rs[0].sp = v, sp
+				out = append(out, rcase{b.c, rs})
+			}
+		}
+		// … and the real name in each of its spellings
+		for sp := 1; sp < nSpelling; sp++ {
+			rs := append([]rl{}, b.rs...)
+			rs[0].sp = sp
+			out = append(out, rcase{b.c, rs})
+		}
+	}
+	return out
+}
+
 // ---------------------------------------------------------------------------
 // running the library
 // ---------------------------------------------------------------------------
@@ -609,7 +1206,35 @@ type verdict struct {
 	text    string
 }
 
-func check(text string) verdict {
+func verdictOf(err error) verdict {
+	if err == nil {
+		return verdict{ok: true, text: "OK"}
+	}
+	var pe jlib.ParsingError
+	if stderrors.As(err, &pe) {
+		return verdict{code: pe.ErrCode(), text: fmt.Sprintf("ERR %d %s", pe.ErrCode(), pe.Message())}
+	}
+	return verdict{code: -1, text: "OTHER " + err.Error()}
+}
+
+func newSchema(text string, opt bool) *js.Schema {
+	if opt {
+		return js.New("root", text, js.KeysAreOptionalByDefault())
+	}
+	return js.New("root", text)
+}
+
+// usesTypes: does the schema text refer to one of the added types?
+func usesTypes(text string) bool {
+	for _, t := range addedTypes {
+		if strings.Contains(text, t[0]) {
+			return true
+		}
+	}
+	return false
+}
+
+func withDeadline(f func() verdict) verdict {
 	ch := make(chan verdict, 1)
 	go func() {
 		var v verdict
@@ -619,27 +1244,7 @@ func check(text string) verdict {
 			}
 			ch <- v
 		}()
-		s := js.New("root", text)
-		var first error
-		for _, t := range addedTypes {
-			if err := s.AddType(t[0], js.New(t[0], t[1])); err != nil && first == nil {
-				first = err
-			}
-		}
-		err := s.Check()
-		if first != nil && err == nil {
-			err = first
-		}
-		if err == nil {
-			v = verdict{ok: true, text: "OK"}
-			return
-		}
-		var pe jlib.ParsingError
-		if stderrors.As(err, &pe) {
-			v = verdict{code: pe.ErrCode(), text: fmt.Sprintf("ERR %d %s", pe.ErrCode(), pe.Message())}
-		} else {
-			v = verdict{code: -1, text: "OTHER " + err.Error()}
-		}
+		v = f()
 	}()
 	tm := time.NewTimer(20 * time.Second)
 	defer tm.Stop()
@@ -649,6 +1254,123 @@ func check(text string) verdict {
 	case <-tm.C:
 		return verdict{timeout: true, text: "TIMEOUT"}
 	}
+}
+
+// check: the verdict of Check() on a FRESH schema object created with / without the option
+// KeysAreOptionalByDefault. The types @t / @o are added first only when the text refers to them
+// (there is no other way to supply them); the verdict is the return value of Check alone.
+func check(text string, opt bool) verdict {
+	return withDeadline(func() verdict {
+		s := newSchema(text, opt)
+		if usesTypes(text) {
+			for _, t := range addedTypes {
+				_ = s.AddType(t[0], js.New(t[0], t[1]))
+			}
+		}
+		return verdictOf(s.Check())
+	})
+}
+
+func jsonDoc(text string) jlib.Document { return jsonfmt.New("doc", text) }
+
+// ---------------------------------------------------------------------------
+// call histories
+// ---------------------------------------------------------------------------
+
+// The calls that may precede the final Check() on the same object. Their results are ignored
+// (as a caller that only collects or logs errors would do), except where noted in checkHistory.
+const (
+	opUsedUserTypes = iota
+	opAddUnrelated  // AddType("@u", …): a type the schema does not refer to
+	opAddT          // AddType("@t", …)
+	opAddO          // AddType("@o", …)
+	opLen
+	opGetAST
+	opExample
+	opCheck
+	opValidate
+	opBuild
+	nOps
+)
+
+var opNames = []string{"UsedUserTypes()", `AddType("@u", New("@u", "\"u\""))`, `AddType("@t", …)`, `AddType("@o", …)`, "Len()", "GetAST()", "Example()", "Check()",
+	`Validate(json "1")`, "Build()"}
+
+// randomHistory: 1-5 calls. Calls that compile the schema (GetAST, Example, Check, Validate, Build) come
+// only after the types the text refers to have been added — a type added later cannot be seen by
+// a compilation that has already happened, so such a history would legitimately differ.
+func randomHistory(r *rand.Rand, text string) []int {
+	var pre []int
+	if usesTypes(text) || r.Intn(3) == 0 {
+		pre = append(pre, opAddT, opAddO)
+	}
+	for k := r.Intn(3); k > 0; k-- {
+		pre = append(pre, []int{opUsedUserTypes, opAddUnrelated, opLen, opUsedUserTypes, opAddUnrelated}[r.Intn(5)])
+	}
+	r.Shuffle(len(pre), func(i, j int) { pre[i], pre[j] = pre[j], pre[i] })
+	var post []int
+	n := r.Intn(3)
+	if len(pre) == 0 && n == 0 {
+		n = 1
+	}
+	for k := n; k > 0; k-- {
+		post = append(post, []int{opGetAST, opExample, opCheck, opValidate, opBuild, opLen, opUsedUserTypes, opAddUnrelated, opCheck, opUsedUserTypes}[r.Intn(10)])
+	}
+	return append(pre, post...)
+}
+
+func historyText(h []int) string {
+	parts := make([]string, len(h))
+	for i, o := range h {
+		parts[i] = opNames[o]
+	}
+	return strings.Join(parts, "; ") + "; Check()"
+}
+
+// checkHistory runs the history on one object and returns the verdict of the final Check().
+// note != "" reports an intermediate result that contradicts the final one: an intermediate
+// Check / Build / GetAST on the same object must give the verdict of the final Check.
+func checkHistory(text string, opt bool, h []int) (verdict, string) {
+	note := ""
+	v := withDeadline(func() verdict {
+		s := newSchema(text, opt)
+		var inter []verdict
+		var interOp []int
+		for _, o := range h {
+			switch o {
+			case opUsedUserTypes:
+				_, _ = s.UsedUserTypes()
+			case opAddUnrelated:
+				_ = s.AddType("@u", js.New("@u", `"u"`))
+			case opAddT:
+				_ = s.AddType(addedTypes[0][0], js.New(addedTypes[0][0], addedTypes[0][1]))
+			case opAddO:
+				_ = s.AddType(addedTypes[1][0], js.New(addedTypes[1][0], addedTypes[1][1]))
+			case opLen:
+				_, _ = s.Len()
+			case opGetAST:
+				_, err := s.GetAST()
+				inter, interOp = append(inter, verdictOf(err)), append(interOp, o)
+			case opExample:
+				_, _ = s.Example()
+			case opCheck:
+				inter, interOp = append(inter, verdictOf(s.Check())), append(interOp, o)
+			case opValidate:
+				_ = s.Validate(jsonDoc("1"))
+			case opBuild:
+				inter, interOp = append(inter, verdictOf(s.Build())), append(interOp, o)
+			}
+		}
+		v := verdictOf(s.Check())
+		for i, iv := range inter {
+			if iv.ok != v.ok || iv.code != v.code {
+				note = fmt.Sprintf("intermediate %s returned %s, the final Check() %s", opNames[interOp[i]], iv.text, v.text)
+				break
+			}
+		}
+		return v
+	})
+	return v, note
 }
 
 // ---------------------------------------------------------------------------
@@ -679,6 +1401,9 @@ func relevant(c ctx) []string {
 }
 
 func pickParam(r *rand.Rand, name string, c ctx, inRange bool) param {
+	if name == "or" && r.Intn(2) == 0 {
+		return genOr(r, c)
+	}
 	ps := params(name, c)
 	if name == "type" && (inRange || r.Intn(10) < 3) {
 		if inRange && r.Intn(4) == 0 {
@@ -717,14 +1442,20 @@ func randomCase(r *rand.Rand, size int, dup bool) rcase {
 	for _, i := range idx {
 		rs = append(rs, rl{name: pool[i], p: pickParam(r, pool[i], c, rel && r.Intn(10) < 7)})
 	}
-	// spelling of the rule names: bare, all quoted, or mixed
+	// spelling of the rule names: bare, all quoted, or mixed (bare / quoted / quoted with \u escapes)
 	switch r.Intn(5) {
 	case 0:
 		rs = spelled(rs, true)
 	case 1, 2:
 		for i := range rs {
-			rs[i].quoted = r.Intn(2) == 0
+			rs[i].sp = randomSpelling(r)
 		}
+	}
+	// a near-miss name: one rule is written with a name that is NOT the rule
+	if r.Intn(12) == 0 {
+		i := r.Intn(len(rs))
+		rs[i].miss = 1 + r.Intn(len(missNames)-1)
+		rs[i].sp = r.Intn(2)
 	}
 	if size >= 3 && r.Intn(8) == 0 {
 		// both false-valued booleans that the compiler filters out, next to other rules
@@ -810,6 +1541,9 @@ func knownRefTypeOr(rc rcase) string {
 	}
 	hasOr, ownType, nType := false, false, 0
 	for _, r := range rc.rs {
+		if r.miss != 0 {
+			return ""
+		}
 		switch r.name {
 		case "or":
 			if hasOr {
@@ -875,14 +1609,26 @@ type outcome struct {
 	fatal      bool
 }
 
-func replay(c ctx, text string) string {
+func replay(c ctx, text string, opt bool) string {
 	var sb strings.Builder
 	sb.WriteString("ROOT:\n" + text)
-	for _, t := range addedTypes {
-		sb.WriteString("\nTYPE " + t[0] + " =\n" + t[1])
+	if opt {
+		sb.WriteString("\nOPTION: jschema.KeysAreOptionalByDefault()")
+	}
+	if usesTypes(text) {
+		for _, t := range addedTypes {
+			sb.WriteString("\nTYPE " + t[0] + " =\n" + t[1])
+		}
 	}
 	sb.WriteString(fmt.Sprintf("\n(context %s/%s)", c.pos, c.val))
 	return sb.String()
+}
+
+func optText(opt bool) string {
+	if opt {
+		return "with KeysAreOptionalByDefault"
+	}
+	return "default options"
 }
 
 func evalCase(r *rand.Rand, rc rcase) outcome {
@@ -897,24 +1643,33 @@ func evalCase(r *rand.Rand, rc rcase) outcome {
 		sort.Strings(ns)
 		o.group = rc.c.val + " " + strings.Join(ns, "+")
 	}
-	o.nontrivial = n >= 2
+	o.nontrivial = n >= 2 || hasGeneratedMembers(rc.rs)
 	want := rulesOK(rc.c, rc.rs)
 	perms := permsFor(r, n)
+	// every case runs under both configurations: all orderings under one of them (alternating),
+	// the first and one more ordering under the other.
+	opt := r.Intn(2) == 0
+	add("all_orderings_" + strings.ReplaceAll(optText(opt), " ", "_"))
+	timeout := func(comp, text string, op bool) outcome {
+		o.diffs = append(o.diffs, vh.Diff{Component: comp, Input: replay(rc.c, text, op), Impl: "TIMEOUT", Model: "Check terminates"})
+		o.fatal = true
+		return o
+	}
 	var firstV verdict
 	firstText := ""
 	codes := map[int]bool{}
 	orderDiff := false
+	texts := make([]string, 0, len(perms))
 	for pi, p := range perms {
 		rs := make([]rl, n)
 		for i, j := range p {
 			rs[i] = rc.rs[j]
 		}
 		text := schemaText(rc.c, annotation(rs))
-		v := check(text)
+		texts = append(texts, text)
+		v := check(text, opt)
 		if v.timeout {
-			o.diffs = append(o.diffs, vh.Diff{Component: "C08-order", Input: replay(rc.c, text), Impl: "TIMEOUT", Model: "Check terminates"})
-			o.fatal = true
-			return o
+			return timeout("C08-order", text, opt)
 		}
 		codes[v.code] = true
 		if pi == 0 {
@@ -924,9 +1679,52 @@ func evalCase(r *rand.Rand, rc rcase) outcome {
 		if v.ok != firstV.ok && !orderDiff {
 			orderDiff = true
 			o.diffs = append(o.diffs, vh.Diff{Component: "C08-order", Class: knownRefTypeOr(rc),
-				Input: replay(rc.c, firstText) + "\n--- versus the same rules reordered ---\n" + text,
+				Input: replay(rc.c, firstText, opt) + "\n--- versus the same rules reordered ---\n" + text,
 				Impl:  fmt.Sprintf("first order: %s; reordered: %s", firstV.text, v.text),
 				Model: "the verdict of Check is the same for every ordering of the rules"})
+		}
+	}
+	// the orderings of the rules INSIDE the rule-sets of generated or members
+	if !orderDiff && hasGeneratedMembers(rc.rs) {
+		for k := 0; k < 4; k++ {
+			text := schemaText(rc.c, annotation(innerReordered(r, rc.rs, k == 0)))
+			if text == firstText {
+				continue
+			}
+			v := check(text, opt)
+			if v.timeout {
+				return timeout("C08-order", text, opt)
+			}
+			add("member_orderings_checked")
+			if v.ok != firstV.ok {
+				orderDiff = true
+				o.diffs = append(o.diffs, vh.Diff{Component: "C08-order",
+					Input: replay(rc.c, firstText, opt) + "\n--- versus the same rules with the rule-sets of the or members reordered ---\n" + text,
+					Impl:  fmt.Sprintf("first order: %s; reordered: %s", firstV.text, v.text),
+					Model: "the verdict of Check is the same for every ordering of the rules inside a rule-set"})
+				break
+			}
+		}
+	}
+	// the other configuration: the option decides what a missing `optional` rule means, never the verdict of Check
+	if !orderDiff {
+		others := []string{firstText}
+		if len(texts) > 1 {
+			others = append(others, texts[1+r.Intn(len(texts)-1)])
+		}
+		for _, text := range others {
+			v := check(text, !opt)
+			if v.timeout {
+				return timeout("C08-option", text, !opt)
+			}
+			add("other_configuration_checked")
+			if v.ok != firstV.ok {
+				o.diffs = append(o.diffs, vh.Diff{Component: "C08-option",
+					Input: replay(rc.c, text, !opt) + "\n--- versus the same rules (first ordering) created " + optText(opt) + " ---\n" + firstText,
+					Impl:  fmt.Sprintf("%s: %s; %s: %s", optText(opt), firstV.text, optText(!opt), v.text),
+					Model: "the verdict of Check on a rule set does not depend on the option KeysAreOptionalByDefault"})
+				break
+			}
 		}
 	}
 	// spelling independence: the same rules in the first order with every name bare / every name quoted
@@ -936,20 +1734,46 @@ func evalCase(r *rand.Rand, rc rcase) outcome {
 			if text == firstText {
 				continue
 			}
-			v := check(text)
+			v := check(text, opt)
 			if v.timeout {
-				o.diffs = append(o.diffs, vh.Diff{Component: "C08-spelling", Input: replay(rc.c, text), Impl: "TIMEOUT", Model: "Check terminates"})
-				o.fatal = true
-				return o
+				return timeout("C08-spelling", text, opt)
 			}
 			add("spelling_variants_checked")
 			if v.ok != firstV.ok {
 				o.diffs = append(o.diffs, vh.Diff{Component: "C08-spelling",
-					Input: replay(rc.c, firstText) + "\n--- versus the same rules with other spellings of the rule names ---\n" + text,
+					Input: replay(rc.c, firstText, opt) + "\n--- versus the same rules with other spellings of the rule names ---\n" + text,
 					Impl:  fmt.Sprintf("as generated: %s; respelled: %s", firstV.text, v.text),
-					Model: `the verdict does not depend on whether a rule name is written bare (min) or quoted ("min")`})
+					Model: `the verdict does not depend on whether a rule name is written bare (min), quoted ("min") or quoted with JSON escapes`})
 				break
 			}
+		}
+	}
+	// call history: the same text on an object that has seen other calls before Check
+	if !orderDiff {
+		hopt := r.Intn(2) == 0
+		base := firstV
+		if hopt != opt {
+			base = check(firstText, hopt)
+		}
+		h := randomHistory(r, firstText)
+		v, note := checkHistory(firstText, hopt, h)
+		if v.timeout || base.timeout {
+			return timeout("C08-history", firstText, hopt)
+		}
+		add("histories_checked")
+		add(fmt.Sprintf("history_length_%d", len(h)))
+		for _, op := range h {
+			add("history_op_" + strings.SplitN(opNames[op], "(", 2)[0])
+		}
+		if v.ok != base.ok || v.code != base.code || note != "" {
+			impl := fmt.Sprintf("fresh object: Check() = %s; after the history: Check() = %s", base.text, v.text)
+			if note != "" {
+				impl += "; " + note
+			}
+			o.diffs = append(o.diffs, vh.Diff{Component: "C08-history",
+				Input: replay(rc.c, firstText, hopt) + "\nCALLS on one object (results ignored): " + historyText(h),
+				Impl:  impl,
+				Model: "the verdict and error code of Check are a function of the schema text: the same after any history of other calls on the object as on a fresh object"})
 		}
 	}
 	if firstV.ok != want && !orderDiff {
@@ -957,7 +1781,7 @@ func evalCase(r *rand.Rand, rc rcase) outcome {
 		if want {
 			w = "accept"
 		}
-		o.diffs = append(o.diffs, vh.Diff{Component: "C08-spec", Class: knownRefTypeOr(rc), Input: replay(rc.c, firstText), Impl: firstV.text,
+		o.diffs = append(o.diffs, vh.Diff{Component: "C08-spec", Class: knownRefTypeOr(rc), Input: replay(rc.c, firstText, opt), Impl: firstV.text,
 			Model: "rulesOK(" + o.key + ") = " + w})
 	}
 	add("ctx_" + rc.c.pos)
@@ -985,8 +1809,33 @@ func evalCase(r *rand.Rand, rc rcase) outcome {
 		add("rule_" + nm)
 	}
 	for _, x := range rc.rs {
-		if x.quoted {
+		if x.miss != 0 {
+			add("near_miss_name_" + missNames[x.miss])
+			continue
+		}
+		switch x.sp {
+		case spQuoted:
 			add("quoted_rule_" + x.name)
+		case spEscOne, spEscAll:
+			add("quoted_rule_" + x.name)
+			add("escaped_rule_name")
+		}
+		for _, m := range x.p.mem {
+			if m.bare == "" {
+				add("generated_or_member")
+				add(fmt.Sprintf("generated_or_member_rules_%d", len(m.rules)))
+				if memberOK(m.rules) {
+					add("generated_or_member_consistent")
+				} else {
+					add("generated_or_member_inconsistent")
+				}
+				for _, y := range m.rules {
+					add("member_rule_" + y.name)
+					if y.miss != 0 {
+						add("member_near_miss_name")
+					}
+				}
+			}
 		}
 	}
 	return o
@@ -1017,8 +1866,12 @@ func Run(args []string) {
 	thorough := vh.Tier() == "thorough"
 	nRandom := vh.Pick(28000, 800000)
 	nDup := vh.Pick(3000, 60000)
+	nMember := vh.Pick(7000, 150000)
 	gen := func(i int) rcase {
 		r := vh.NewRand((8_000_000_011 + int64(i)) * 2000029)
+		if i >= nRandom+nDup {
+			return memberCase(r)
+		}
 		if i >= nRandom {
 			return randomCase(r, 1+r.Intn(3), true)
 		}
@@ -1076,7 +1929,12 @@ func Run(args []string) {
 			jobs <- job{-1 - k, &rc}
 			k++
 		}
-		for i := 0; i < nRandom+nDup; i++ {
+		for _, rc := range nearMissStream() {
+			rc := rc
+			jobs <- job{-1 - k, &rc}
+			k++
+		}
+		for i := 0; i < nRandom+nDup+nMember; i++ {
 			jobs <- job{i, nil}
 		}
 		close(jobs)
